@@ -70,7 +70,14 @@ func (d *Doc) BytesXRefStream(useObjStm bool) []byte {
 		data := append(prolog.Bytes(), body.Bytes()...)
 		enc := deflate(data)
 		ents[osNr] = ent{1, b.Len(), 0}
-		fmt.Fprintf(&b, "%d 0 obj\n<</Type/ObjStm/N %d/First %d/Filter/FlateDecode/Length %d>>\nstream\n", osNr, len(inStm), prolog.Len(), len(enc))
+		nTxt, firstTxt := fmt.Sprint(len(inStm)), fmt.Sprint(prolog.Len())
+		if d.Override["N"] != "" {
+			nTxt = d.Override["N"]
+		}
+		if d.Override["First"] != "" {
+			firstTxt = d.Override["First"]
+		}
+		fmt.Fprintf(&b, "%d 0 obj\n<</Type/ObjStm/N %s/First %s/Filter/FlateDecode/Length %d>>\nstream\n", osNr, nTxt, firstTxt, len(enc))
 		b.Write(enc)
 		b.WriteString("\nendstream\nendobj\n")
 	}
@@ -115,7 +122,14 @@ func (d *Doc) BytesXRefStream(useObjStm bool) []byte {
 	if d.ID[0] != "" {
 		extra += fmt.Sprintf("/ID[<%s><%s>]", d.ID[0], d.ID[1])
 	}
-	fmt.Fprintf(&b, "%d 0 obj\n<</Type/XRef/Size %d/W[1 4 2]/Root %s%s%s/Filter/FlateDecode/Length %d>>\nstream\n", xNr, size, Ref(d.Root), extra, d.Extra, len(enc))
+	sizeTxt := fmt.Sprint(size)
+	if d.Override["Size"] != "" {
+		sizeTxt = d.Override["Size"]
+	}
+	if d.Override["Index"] != "" {
+		extra += "/Index" + d.Override["Index"]
+	}
+	fmt.Fprintf(&b, "%d 0 obj\n<</Type/XRef/Size %s/W[1 4 2]/Root %s%s%s/Filter/FlateDecode/Length %d>>\nstream\n", xNr, sizeTxt, Ref(d.Root), extra, d.Extra, len(enc))
 	b.Write(enc)
 	fmt.Fprintf(&b, "\nendstream\nendobj\nstartxref\n%d\n%%%%EOF\n", xOff)
 	return b.Bytes()
